@@ -1,0 +1,6 @@
+//go:build !verif
+
+package server
+
+// verifAfterCommandRead is a no-op without the "verif" build tag (see hook_verif.go).
+func verifAfterCommandRead() {}
